@@ -12,7 +12,10 @@ import (
 
 	apifu "github.com/ccbrown/api-fu"
 	"github.com/ccbrown/api-fu/graphql"
+	"github.com/ccbrown/api-fu/graphql/ast"
+	"github.com/ccbrown/api-fu/graphql/parser"
 	"github.com/ccbrown/api-fu/graphql/schema"
+	"github.com/ccbrown/api-fu/graphql/validator"
 
 	"verifharness/hx"
 )
@@ -311,6 +314,9 @@ type Observed struct {
 	GRan   bool   // directive sites: g's resolver ran
 	Detail string // errors / panic text
 	Cost   string // what the cost function observed: "-" (not called) | `(ok …)` | "panic: …"
+	// Ungated: validator.CoerceVariableValues + validator.CoerceArgumentValues called directly on the
+	// parsed, *unvalidated* document: reqerr | fielderr | `(ok …)` | "panic: …"
+	Ungated string
 }
 
 func (o Observed) String() string {
@@ -318,7 +324,7 @@ func (o Observed) String() string {
 	if o.Class == "ok" {
 		s = o.Args
 	}
-	return fmt.Sprintf("%s [g ran: %v] [cost saw: %s] %s", s, o.GRan, o.Cost, o.Detail)
+	return fmt.Sprintf("%s [g ran: %v] [cost saw: %s] [ungated: %s] %s", s, o.GRan, o.Cost, o.Ungated, o.Detail)
 }
 
 func errorTexts(errs []*graphql.Error) string {
@@ -419,5 +425,38 @@ func runReal(c *Case) (o Observed, query, variables string, err error) {
 			}
 		}()
 	}
+	o.Ungated = runUngated(p, w, query, vars)
 	return o, query, variables, nil
+}
+
+// runUngated calls the two exported coercion functions the way the executor does, without the
+// validation gate (library users and ValidateCost reach them like this).
+func runUngated(p *pcase, w *world, query string, vars map[string]interface{}) (res string) {
+	defer func() {
+		if r := recover(); r != nil {
+			res = fmt.Sprintf("panic: %v", r)
+		}
+	}()
+	doc, perrs := parser.ParseDocument([]byte(query))
+	if len(perrs) > 0 {
+		return "syntax-error"
+	}
+	op := doc.Definitions[0].(*ast.OperationDefinition)
+	field := op.SelectionSet.Selections[0].(*ast.Field)
+	coerced, verr := validator.CoerceVariableValues(w.schema, nil, op, vars)
+	if verr != nil {
+		return "reqerr"
+	}
+	var node ast.Node = field
+	defs := w.schema.QueryType().Fields[field.Name.Name].Arguments
+	args := field.Arguments
+	if p.site != "field" {
+		d := field.Directives[0]
+		node, defs, args = d, w.schema.Directives()[d.Name.Name].Arguments, d.Arguments
+	}
+	out, aerr := validator.CoerceArgumentValues(node, defs, args, coerced)
+	if aerr != nil {
+		return "fielderr"
+	}
+	return dumpArgs(out).String()
 }
